@@ -37,11 +37,13 @@ const (
 	OpRecv            // enabled iff item buffered / closed / (unbuffered) a parked sender
 	OpClose           // always enabled
 	OpDone            // thread finished (never enabled)
+	OpRLock           // enabled iff the rwmutex has no writer in the model
+	OpWLock           // enabled iff the rwmutex has neither writer nor readers in the model
 )
 
 //go:norace
 func (o Op) String() string {
-	return [...]string{"start", "yield", "lock", "send", "recv", "close", "done"}[o]
+	return [...]string{"start", "yield", "lock", "send", "recv", "close", "done", "rlock", "wlock"}[o]
 }
 
 // Thread is one goroutine under the scheduler.
@@ -91,8 +93,9 @@ type chanRec struct {
 }
 
 type heldRec struct {
-	m     any
-	owner *Thread
+	m       any
+	owner   *Thread // mutex owner / rwmutex writer
+	readers int     // rwmutex readers
 }
 
 // Sched is one controlled execution.
@@ -252,16 +255,41 @@ func (s *Sched) holder(m any) *Thread {
 func (s *Sched) setHolder(m any, t *Thread) {
 	for i := range s.held {
 		if s.held[i].m == m {
-			if t == nil {
+			s.held[i].owner = t
+			if t == nil && s.held[i].readers == 0 {
 				s.held = append(s.held[:i], s.held[i+1:]...)
-			} else {
-				s.held[i].owner = t
 			}
 			return
 		}
 	}
 	if t != nil {
 		s.held = append(s.held, heldRec{m: m, owner: t})
+	}
+}
+
+//go:norace
+func (s *Sched) readers(m any) int {
+	for i := range s.held {
+		if s.held[i].m == m {
+			return s.held[i].readers
+		}
+	}
+	return 0
+}
+
+//go:norace
+func (s *Sched) addReader(m any, d int) {
+	for i := range s.held {
+		if s.held[i].m == m {
+			s.held[i].readers += d
+			if s.held[i].readers <= 0 && s.held[i].owner == nil {
+				s.held = append(s.held[:i], s.held[i+1:]...)
+			}
+			return
+		}
+	}
+	if 0 < d {
+		s.held = append(s.held, heldRec{m: m, readers: d})
 	}
 }
 
@@ -275,6 +303,10 @@ func (s *Sched) enabled(t *Thread) (ok bool, partners []*Thread) {
 		return true, nil
 	case OpLock:
 		return s.holder(t.obj) == nil, nil
+	case OpRLock:
+		return s.holder(t.obj) == nil, nil
+	case OpWLock:
+		return s.holder(t.obj) == nil && s.readers(t.obj) == 0, nil
 	case OpSend:
 		cr := s.chanRec(t.obj)
 		if cr.closed {
@@ -376,8 +408,11 @@ func (s *Sched) Run(main func()) {
 		if s.KeepTrace {
 			s.Trace = append(s.Trace, tr.String())
 		}
-		if tr.T.op == OpLock {
+		switch tr.T.op {
+		case OpLock, OpWLock:
 			s.setHolder(tr.T.obj, tr.T)
+		case OpRLock:
+			s.addReader(tr.T.obj, 1)
 		}
 		tr.T.parked = false
 		wait := 1
@@ -477,6 +512,49 @@ func AfterTryLock(m any, ok bool) {
 func AfterUnlock(m any) {
 	if s, _ := current(); s != nil {
 		s.setHolder(m, nil)
+	}
+}
+
+// BeforeWLock / BeforeRLock / After*: the reader-writer mutex hooks of vsync.RWMutex.
+//go:norace
+func BeforeWLock(m any) {
+	if s, t := current(); s != nil {
+		s.point(t, OpWLock, m)
+	}
+}
+
+//go:norace
+func BeforeRLock(m any) {
+	if s, t := current(); s != nil {
+		s.point(t, OpRLock, m)
+	}
+}
+
+//go:norace
+func AfterWUnlock(m any) {
+	if s, _ := current(); s != nil {
+		s.setHolder(m, nil)
+	}
+}
+
+//go:norace
+func AfterRUnlock(m any) {
+	if s, _ := current(); s != nil {
+		s.addReader(m, -1)
+	}
+}
+
+//go:norace
+func AfterTryWLock(m any, ok bool) {
+	if s, t := current(); s != nil && ok {
+		s.setHolder(m, t)
+	}
+}
+
+//go:norace
+func AfterTryRLock(m any, ok bool) {
+	if s, _ := current(); s != nil && ok {
+		s.addReader(m, 1)
 	}
 }
 
